@@ -34,6 +34,15 @@ SAME_NAMED_THREADS_QUIET2 = _case(
                   _t("t1", [], [_named_thread([_LOG, _GATE, _ERR])], rank=2)])]),
     _cfg(2, "lifo"))
 
+# ... and a variant whose verdict does not depend on which thread is first: both threads log, both are held, both then
+# log an error and are held again until the other one has logged its error too (fifo: the thread still at its first
+# gate is released before the one that reached its second gate).  Whichever thread opened its step last, the OTHER
+# one's error must still land in its own test.
+SAME_NAMED_THREADS_BOTH_FAIL = _case(
+    _p([_s("s0", [_t("t0", [], [_named_thread([_LOG, _GATE, _ERR, _GATE])]),
+                  _t("t1", [], [_named_thread([_LOG, _GATE, _ERR, _GATE])], rank=2)])]),
+    _cfg(2, "fifo"))
+
 # the same with a step change in one of the threads
 SAME_NAMED_THREADS_STEPS = _case(
     _p([_s("s0", [_t("t0", [], [_named_thread([_LOG, _GATE, {"a": "step", "d": "second"}, _LOG])]),
@@ -146,4 +155,4 @@ CONTROLS2 = [DOTTED_NAMES, DOTTED_NAMES_THREADS, ATTACH_BLOCKS, ATTACH_BLOCK_RAI
              STOP_ON_FAILURE_IN_FIXTURE, SAME_NAMED_DEPENDENCIES, SAME_NAMED_DEPENDENCIES_SEQ, SAME_STEP_AGAIN,
              SUBCLASS_ABORT_ALL, SUBCLASS_ABORT_SUITE]
 
-CONTROLS = [SAME_NAMED_THREADS, SAME_NAMED_THREADS_QUIET, SAME_NAMED_THREADS_QUIET2, SAME_NAMED_THREADS_QUIET, SAME_NAMED_THREADS_QUIET2, SAME_NAMED_THREADS_STEPS, SAME_NAMED_SUBSUITES]
+CONTROLS = [SAME_NAMED_THREADS, SAME_NAMED_THREADS_BOTH_FAIL, SAME_NAMED_THREADS_QUIET, SAME_NAMED_THREADS_QUIET2, SAME_NAMED_THREADS_QUIET, SAME_NAMED_THREADS_QUIET2, SAME_NAMED_THREADS_STEPS, SAME_NAMED_SUBSUITES]
